@@ -231,6 +231,34 @@ func runCheck(eng *Eng, id, tier string, replay, keep bool, only string) int {
 		allObls = append(allObls, t.obls...)
 		covers = append(covers, t.covers...)
 	}
+	// interface-level contracts used by this check: each must follow from the verified contract of its implementation
+	if id != "C14" {
+		for _, mp := range eng.mirrorPairs(contractsUsed) {
+			gBV = false
+			t := newTask(eng, mp.iface.Full+" mirrors "+shortName(mp.implCon.Full))
+			func() {
+				defer func() {
+					if r := recover(); r != nil {
+						t.errorf("internal error while generating mirror VCs for %s: %v", t.name, r)
+					}
+				}()
+				t.verifyMirror(mp)
+			}()
+			taskList = append(taskList, t)
+			for _, e := range t.errs {
+				undecided = append(undecided, t.name+": "+e)
+			}
+			for k := range t.assumed {
+				assumed[k] = true
+			}
+			// only the mirror obligations themselves (the call-site preconditions are assumed just before)
+			for _, o := range t.obls {
+				if o.Kind == "mirror" {
+					allObls = append(allObls, o)
+				}
+			}
+		}
+	}
 	for _, l := range lemmas {
 		t := newTask(eng, "lemma:"+l.Label)
 		t.proveLemma(l)
